@@ -1,0 +1,18 @@
+//go:build verif
+// +build verif
+
+package bfe_spdy
+
+import (
+	"github.com/bfenetworks/bfe/bfe_util/pipe"
+)
+
+// VerifC08NewRequestBody builds a SPDY request body as the server does for a stream
+// with (hasBody) or without an entity body (hook for the verification harness of C08; add-only).
+func VerifC08NewRequestBody(hasBody bool) *RequestBody {
+	b := &RequestBody{}
+	if hasBody {
+		b.pipe = pipe.NewPipeWithSize(16)
+	}
+	return b
+}
